@@ -663,6 +663,23 @@ def run_subclasses(case):
   return R(None, True, (cls, op))
 
 
+def gen_types(run):
+  from ..routes import struct_params
+  try:
+    T = route_table()
+  except Exception:
+    T = {}
+  for name, ent in T.items():
+    if struct_params(ent[1]):
+      yield (name,)
+
+
+def run_types(case):
+  from ..routes import struct_params, types_agree
+  ent = route_table()[case[0]]
+  return types_agree(case[0], ent[0], ent[1], ent[2], struct_params(ent[1]))
+
+
 KINDS = OrderedDict([
   ("hist", Kind(None, run_hist, chunk=16, timeout=30,
                 rule="one case = one state (history); every enabled letter applied from it, then all handles drained")),
@@ -671,6 +688,8 @@ KINDS = OrderedDict([
                        rule="each function with every documented parameter set: all positional / all keyword / every split must agree")),
   ("long", Kind(gen_long, run_long, chunk=20, rule="3-operation permutations with counts 64..2500 on streams of 5000 items / endless, list model")),
   ("subclasses", Kind(gen_subclasses, run_subclasses, chunk=2, timeout=20, rule="copy / tee of ControlStream, Streamix, a user subclass, a hub")),
+  ("param-types", Kind(gen_types, run_types, chunk=1,
+                       rule="structural integer parameters given as integral float / Fraction / bool: same result wherever the type is accepted")),
 ])
 
 
